@@ -1,5 +1,7 @@
 (* C19 - Portfolio answer is independent of the race and never blocks forever.
    Statements only; each is closed by `exact` of a lemma proved in proofs/Portfolio_proofs.v.
+   The model is the protocol as repaired by build/fixes/C19_all_fail_raise.diff and
+   C19_silent_death.diff (failure counter + liveness poll in Portfolio._solve).
    `run c sched` is the state of the protocol model (models/Portfolio.v) after the schedule
    `sched` (ANY list of parent / child / kill choices) for configuration `c` (ANY number of
    members with ANY behaviours, exit_on_exception flag, signal-latency flag, query script). *)
@@ -19,15 +21,22 @@ Theorem C19_verdict_agreed : forall c b,
   forall sched w b', returned (run c sched) = Some (w, b') -> b' = b.
 Proof. exact verdict_agreed. Qed.
 
-(* failing / unknown members never turn the call into an error (exit_on_exception off) *)
+(* failing / unknown members never turn the call into an error while another member
+   answers (exit_on_exception off): an error means that EVERY member failed *)
 Theorem C19_failures_ignored : forall c, eoe c = false ->
-  forall sched i todo, par (run c sched) <> PErr i /\ par (run c sched) <> PRaise i todo.
+  forall sched i, par (run c sched) = PErr i -> all_fail c = true.
 Proof. exact failures_ignored. Qed.
 
-(* exit_on_exception on: an error is the exception of a member that raised / answered unknown *)
+Theorem C19_no_answer_error_only_if_all_fail : forall c, latency c = false ->
+  forall sched, par (run c sched) = PDead -> all_fail c = true.
+Proof. exact no_answer_error_only_if_all_fail. Qed.
+
+(* an error is the exception of a member that raised / answered unknown, raised because
+   exit_on_exception asks for it or because nobody is left *)
 Theorem C19_error_only_from_failure : forall c sched i,
   par (run c sched) = PErr i ->
-  eoe c = true /\ exists bh, nth_error (members c) i = Some bh /\ raises bh = true.
+  (exists bh, nth_error (members c) i = Some bh /\ raises bh = true) /\
+  (eoe c = true \/ all_fail c = true).
 Proof. exact error_only_from_failure. Qed.
 
 (* get_model / get_value are served by the member whose verdict was returned
@@ -44,11 +53,9 @@ Theorem C19_model_from_agreeing_member : forall c b,
   nth_error (members c) i = Some (BAns b') /\ b' = b.
 Proof. exact model_from_agreeing_member. Qed.
 
-(* no reachable deadlock while some member answers (or raises, with exit_on_exception):
-   every state in which nothing can move is one where the call has finished *)
+(* no reachable deadlock, for every configuration: every state in which nothing can move is
+   one where the call has finished (returned, or raised) *)
 Theorem C19_no_stuck_state : forall c, latency c = false ->
-  (exists i bh, nth_error (members c) i = Some bh /\
-                (answers bh = true \/ (eoe c = true /\ raises bh = true))) ->
   forall sched, stuck c (run c sched) = true -> final (run c sched) = true.
 Proof. exact no_stuck_state. Qed.
 
@@ -58,32 +65,12 @@ Theorem C19_every_step_decreases : forall c s l s',
   step c s l = Some s' -> measure c s' < measure c s.
 Proof. exact step_decreases. Qed.
 
-(* all_fail_reports is FALSE of the code: with exit_on_exception off the parent never leaves
-   the queue loop when every member fails, under ANY schedule *)
-Theorem C19_all_fail_blocks : forall c, eoe c = false -> all_fail c = true ->
-  forall sched, par (run c sched) = PWait.
-Proof. exact all_fail_blocks. Qed.
-
-Theorem C19_all_fail_reports_refuted :
-  exists c sched, all_fail c = true /\ stuck c (run c sched) = true /\
-    par (run c sched) = PWait /\ outcome_of c (run c sched) = OBlockedSolve.
-Proof. exact all_fail_reports_refuted. Qed.
-
-Theorem C19_all_fail_reports_false :
-  ~ (forall c, all_fail c = true -> forall sched,
-       stuck c (run c sched) = true -> exists i, par (run c sched) = PErr i).
-Proof. exact all_fail_reports_false. Qed.
-
-(* the part that holds *)
-Theorem C19_all_fail_reports_partial : forall c, latency c = false -> eoe c = true ->
-  all_fail c = true ->
-  (exists i bh, nth_error (members c) i = Some bh /\ raises bh = true) ->
-  forall sched, stuck c (run c sched) = true -> exists i, par (run c sched) = PErr i.
-Proof. exact all_fail_reports_partial. Qed.
-
-Theorem C19_all_exit_blocks_even_with_eoe :
-  exists c sched, eoe c = true /\ all_fail c = true /\ outcome_of c (run c sched) = OBlockedSolve.
-Proof. exact all_exit_blocks_even_with_eoe. Qed.
+(* every member fails -> the call reports an error (a member's exception, or "nobody is
+   left") instead of blocking: the only states in which nothing can move are error states *)
+Theorem C19_all_fail_reports : forall c, latency c = false -> all_fail c = true ->
+  forall sched, stuck c (run c sched) = true ->
+  (exists i, par (run c sched) = PErr i) \/ par (run c sched) = PDead.
+Proof. exact all_fail_reports. Qed.
 
 (* the single shared control pipe: with signal latency a loser can take the query and die *)
 Theorem C19_no_stuck_state_latency_refuted :
@@ -96,14 +83,11 @@ Proof. exact no_stuck_state_latency_refuted. Qed.
 Print Assumptions C19_verdict_from_member.
 Print Assumptions C19_verdict_agreed.
 Print Assumptions C19_failures_ignored.
+Print Assumptions C19_no_answer_error_only_if_all_fail.
 Print Assumptions C19_error_only_from_failure.
 Print Assumptions C19_model_from_winner.
 Print Assumptions C19_model_from_agreeing_member.
 Print Assumptions C19_no_stuck_state.
 Print Assumptions C19_every_step_decreases.
-Print Assumptions C19_all_fail_blocks.
-Print Assumptions C19_all_fail_reports_refuted.
-Print Assumptions C19_all_fail_reports_false.
-Print Assumptions C19_all_fail_reports_partial.
-Print Assumptions C19_all_exit_blocks_even_with_eoe.
+Print Assumptions C19_all_fail_reports.
 Print Assumptions C19_no_stuck_state_latency_refuted.
